@@ -383,6 +383,8 @@ func (w *world) applyExt(op kernel.Op) bool {
 		w.opAdvMsg(op)
 	case "tss":
 		w.opTSS(op)
+	case "xrestart":
+		w.opRestart(op)
 	default:
 		return false
 	}
@@ -473,4 +475,47 @@ func (w *world) opExport(op kernel.Op) {
 		w.rec.Violate("C13", "roundtrip", is.Key, "%s: %s", c.Cfg.Name, is.Detail)
 	}
 	w.rec.Probe("export.done")
+}
+
+// opRestart: the chain is exported in full and restarted from the export at the next height (what an
+// operator does for a hard fork). Everything the properties talk about must survive: the module stores,
+// every tracked balance, and - checked by all the other oracles on the continuing run - receipts,
+// commitments, sequences, clients, relayer registrations.
+func (w *world) opRestart(op kernel.Op) {
+	c := w.chain(op.Arg(0))
+	if c.InBlock || c.Halted != "" {
+		return
+	}
+	pre := c.snapshot()
+	balPre := w.balances(c)
+	reason := c.ExportRestart()
+	if reason == "busy" {
+		return
+	}
+	w.rec.Fault("node.export_restart")
+	if reason != "" {
+		w.rec.Violate("C13", "export_restart", errClassOf(reason), "%s cannot restart from its own full export: %s", c.Cfg.Name, reason)
+		return
+	}
+	post := c.snapshot()
+	// (other modules, e.g. staking's historical entries, are not what the property is about)
+	if d := diffSnap(pre, post, "xibc", "aggregate"); len(d) > 0 {
+		w.rec.Violate("C13", "export_restart_changed_state", classifyDiff(d), "restart of %s from its own export changed module state: %v", c.Cfg.Name, trunc(d, 6))
+	}
+	if d := balDelta(balPre, w.balances(c)); len(d) > 0 {
+		w.rec.Violate("C13", "export_restart_changed_state", "balances", "restart of %s from its own export changed balances:%s", c.Cfg.Name, fmtDelta(d))
+	}
+	w.rec.Logf("chain %s restarted from its export at height %d", c.Cfg.Name, c.Height+1)
+}
+
+func errClassOf(reason string) string {
+	for _, kw := range []string{"consensus state height cannot be zero", "client type", "metadata", "relayer", "validator", "token pair", "denom"} {
+		if strings.Contains(reason, kw) {
+			return strings.ReplaceAll(kw, " ", "_")
+		}
+	}
+	if i := strings.Index(reason, ":"); i > 0 {
+		return reason[:i]
+	}
+	return "other"
 }
